@@ -116,6 +116,50 @@ impl Config for Cfg { type Balance = u64; }
 struct W<T> where T: Config { a: T::Balance, m: PhantomData<T> }
 fn main() { assert_type_info::<W<Cfg>>(); }
 """, about="explicit bounds(..) replaces the generated bounds only: the type's own where clause is kept")
+case("c13_qualified_assoc", "C13", "R13.5", "pass", """
+trait Config { type Balance; type Hash; }
+#[derive(TypeInfo)] struct Cfg;
+impl Config for Cfg { type Balance = u64; type Hash = [u8; 4]; }
+#[derive(TypeInfo)] struct Q<T: Config> { a: <T as Config>::Balance }
+#[derive(TypeInfo)] struct Q2<T: Config> { v: Vec<(<T as Config>::Hash, u32)>, o: Option<<T as Config>::Balance> }
+#[derive(TypeInfo)] enum QE<T: Config> { A(<T as Config>::Balance), B { h: <T as Config>::Hash } }
+fn main() { assert_type_info::<Q<Cfg>>(); assert_type_info::<Q2<Cfg>>(); assert_type_info::<QE<Cfg>>(); }
+""", about="parameter mentioned only through qualified paths `<T as Trait>::Assoc` (the self type of a qualified path is part of the member type)")
+case("c13_unsized_param", "C13", "R13.5", "pass", """
+#[derive(TypeInfo)] struct U<T: ?Sized> { a: Box<T> }
+#[derive(TypeInfo)] struct W<T> where T: ?Sized { n: u8, tail: Box<T> }
+#[derive(TypeInfo)] enum UE<T: ?Sized> { A(Box<T>), B }
+fn main() { assert_type_info::<U<str>>(); assert_type_info::<W<[u8]>>(); assert_type_info::<UE<str>>(); assert_type_info::<U<u8>>(); }
+""", about="a non-skipped ?Sized parameter: the generated type_params / where clause must accept the unsized instantiation")
+# ------------------------------------------------------------------------------- C04: every built-in keeps its type info
+case("c04_unsized_pointees", "C04", "R4.5", "pass", """
+extern crate alloc;
+use alloc::{boxed::Box, rc::Rc, sync::Arc, vec::Vec, collections::BTreeMap};
+fn main() {
+    assert_type_info::<Box<str>>(); assert_type_info::<Box<[u8]>>(); assert_type_info::<Rc<str>>(); assert_type_info::<Rc<[u16]>>();
+    assert_type_info::<Arc<str>>(); assert_type_info::<Arc<[bool]>>(); assert_type_info::<&'static str>(); assert_type_info::<&'static [u8]>();
+    assert_type_info::<Vec<Arc<str>>>(); assert_type_info::<BTreeMap<u8, Box<str>>>(); assert_type_info::<str>(); assert_type_info::<[u32]>();
+}
+""", about="owning pointers and references describe unsized pointees too (they have a SCALE encoding)")
+case("c04_inventory", "C04", "R4.5", "pass", """
+extern crate alloc;
+use alloc::{borrow::Cow, collections::{BTreeMap, BTreeSet, BinaryHeap, VecDeque}, string::String, vec::Vec};
+use core::{num::*, ops::{Range, RangeInclusive}, time::Duration};
+fn main() {
+    assert_type_info::<()>(); assert_type_info::<(u8,)>();
+    assert_type_info::<(u8,u8,u8,u8,u8,u8,u8,u8,u8,u8,u8,u8,u8,u8,u8,u8,u8,u8)>();
+    assert_type_info::<(u8,u8,u8,u8,u8,u8,u8,u8,u8,u8,u8,u8,u8,u8,u8,u8,u8,u8,u8)>();
+    assert_type_info::<(u8,u8,u8,u8,u8,u8,u8,u8,u8,u8,u8,u8,u8,u8,u8,u8,u8,u8,u8,u8)>();
+    assert_type_info::<[u8; 0]>(); assert_type_info::<[u64; 33]>(); assert_type_info::<[[u8; 2]; 1024]>();
+    assert_type_info::<bool>(); assert_type_info::<char>(); assert_type_info::<u8>(); assert_type_info::<u16>(); assert_type_info::<u32>(); assert_type_info::<u64>();
+    assert_type_info::<u128>(); assert_type_info::<i8>(); assert_type_info::<i16>(); assert_type_info::<i32>(); assert_type_info::<i64>(); assert_type_info::<i128>();
+    assert_type_info::<NonZeroU8>(); assert_type_info::<NonZeroU16>(); assert_type_info::<NonZeroU32>(); assert_type_info::<NonZeroU64>(); assert_type_info::<NonZeroU128>();
+    assert_type_info::<NonZeroI8>(); assert_type_info::<NonZeroI16>(); assert_type_info::<NonZeroI32>(); assert_type_info::<NonZeroI64>(); assert_type_info::<NonZeroI128>();
+    assert_type_info::<Option<u8>>(); assert_type_info::<Result<u8, bool>>(); assert_type_info::<Cow<'static, str>>(); assert_type_info::<Cow<'static, [u8]>>();
+    assert_type_info::<Vec<u8>>(); assert_type_info::<VecDeque<u8>>(); assert_type_info::<BTreeMap<u8, u16>>(); assert_type_info::<BTreeSet<u8>>(); assert_type_info::<BinaryHeap<u8>>();
+    assert_type_info::<String>(); assert_type_info::<PhantomData<u8>>(); assert_type_info::<Range<u8>>(); assert_type_info::<RangeInclusive<u8>>(); assert_type_info::<Duration>();
+}
+""", about="inventory of the built-in types named by the property: each has type info (tuples up to arity 20, arrays of any length)")
 # ------------------------------------------------------------------------------- C13 negatives
 case("c13_neg_param_no_info", "C13", "R13.5", "fail", """
 #[derive(TypeInfo)] struct A<T> { a: T }
